@@ -204,6 +204,9 @@ func (tree *ParserT) parseExpression(exec, incLogicalOps bool) error {
 			if err != nil {
 				return err
 			}
+			if branch.charPos < 1 {
+				return raiseError(tree.expression, nil, tree.charPos, "missing closing parenthesis ')'")
+			}
 
 			if exec {
 				dt, err := branch.executeExpr()
@@ -486,6 +489,9 @@ func (tree *ParserT) parseSubExpression(exec bool) (any, error) {
 	err := branch.parseExpression(exec, true)
 	if err != nil {
 		return nil, err
+	}
+	if branch.charPos < 1 {
+		return nil, raiseError(tree.expression, nil, tree.charPos, "missing closing parenthesis ')'")
 	}
 	tree.charPos += branch.charPos - 1
 	if exec {
